@@ -89,6 +89,9 @@ pub struct Rec {
     pub equiv: bool,
     /// UnknownPathSecret for a credential id that a client really uses
     pub known_id: bool,
+    /// hash of the datagram bytes (0 for secret-control packets: their tag is derived from the
+    /// server map's random stateless-reset signer, the only byte source without a seam)
+    pub bytes_hash: u64,
 }
 
 #[derive(Clone, Debug, Default)]
@@ -395,6 +398,7 @@ impl LinkState {
             first_flight: false,
             equiv: false,
             known_id: false,
+            bytes_hash: if (KIND_STALE_KEY..=KIND_UPS).contains(&meta.kind) { 0 } else { simkit::hash_bytes(&bytes) },
         };
         if dir == DIR_C2S && meta.kind <= KIND_CONTROL {
             self.real_ids.insert(meta.cred_id);
@@ -451,12 +455,17 @@ impl LinkState {
             }
         }
         let mut replaced = false;
-        let mut forged: Vec<(i64, Bytes, String, bool, u8, bool)> = vec![];
+        let mut forged: Vec<(i64, Bytes, String, bool, u8, bool, bool)> = vec![];
         for f in &forges {
             if let Some((b, note, changed)) = self.mutate(&f.mutation, dir, &bytes, &meta) {
                 let k = decode_meta(&b).kind;
                 let equiv = changed && secret_control_equivalent(&bytes, &meta, &b, &f.mutation);
-                forged.push((f.skew_us, b, note, changed, k, equiv));
+                // bytes borrowed from a secret-control packet carry its (random) token
+                let tainted = match &f.mutation {
+                    Mutation::TagOf(o) | Mutation::Splice(o) => self.pick_other(o, dir, &meta).map_or(false, |s| (KIND_STALE_KEY..=KIND_UPS).contains(&s.meta.kind)),
+                    _ => false,
+                };
+                forged.push((f.skew_us, b, note, changed, k, equiv, tainted));
                 if f.replace {
                     replaced = true;
                 }
@@ -495,7 +504,7 @@ impl LinkState {
             }
         }
         if dropped.is_none() {
-            for (skew, b, note, changed, k, equiv) in forged {
+            for (skew, b, note, changed, k, equiv, tainted) in forged {
                 let mut p = packet.clone();
                 *p.transport.payload_mut() = b.clone();
                 let idx = self.log.len();
@@ -504,6 +513,7 @@ impl LinkState {
                 r.label = LABEL_FORGED;
                 r.len = b.len() as u32;
                 r.kind = k;
+                r.bytes_hash = if tainted || (KIND_STALE_KEY..=KIND_UPS).contains(&k) || (KIND_STALE_KEY..=KIND_UPS).contains(&meta.kind) { 0 } else { simkit::hash_bytes(&b) };
                 r.note = Some(format!("{note}{}{}", if equiv { " (authenticated part identical)" } else { "" }, if changed { "" } else { " (no-op: identical bytes, counted as duplicate)" }));
                 r.equiv = equiv;
                 if !changed {
